@@ -24,7 +24,17 @@ Record case := {
   k_sum : val;           k_np_sum : val;        (* np.sum(result) ; np.sum(dense) *)
   (* np.histogram in the case's calling convention (positional / keyword / mixed bins, range, explicit edges, default):
      k_edges, k_np_hist = edges and counts NumPy returns on the dense array; k_obs_edges, k_hist = on the genomic array *)
-  k_edges : list val;    k_obs_edges : list val;    k_hist : list Z;  k_np_hist : list Z
+  k_edges : list val;    k_obs_edges : list val;    k_hist : list Z;  k_np_hist : list Z;
+  (* repeated observation of the SAME objects after the caller edited, in place, every array earlier observations handed out
+     (to_dict() arrays, get_data() columns, track[name] / track[intervals] expansions, ufunc results, histogram outputs):
+     k_lreps, k_lreps2 = every leaf array twice more (same route both times), k_rreps = the result array three more times
+     (routes A, B, A) — each through one of the routes
+     to_dict() / the second of two to_dict() results / track[name].to_array() / track[whole-chromosome intervals] / (track + 0 or
+     track & True).to_dict() / str = np.asarray (parsed; bool and int), always with a fresh get_data(); then np.sum and
+     np.histogram of the result once more.  The genomic array never changes: every one must again be the lossless view of the
+     dense array the records describe. *)
+  k_lreps : list obs;    k_lreps2 : list obs;   k_rreps : list obs;
+  k_sum2 : val;          k_obs_edges2 : list val;   k_hist2 : list Z
 }.
 
 Definition grec_eqb (a b : grec) : bool :=
@@ -73,6 +83,12 @@ Definition spec_ok (c : case) : bool :=
          && veqb (k_sum c) (vsum d)
          && vlist_eqb (k_obs_edges c) (k_edges c)
          && zlist_eqb (k_hist c) (spec_hist (k_edges c) d)
+         (* the same objects observed again after in-place edits of everything handed out before *)
+         && all2 (leaf_ok sizes) (k_leaves c) (k_lreps c) && all2 (leaf_ok sizes) (k_leaves c) (k_lreps2 c)
+         && (len (k_rreps c) =? 3) && forallb (view_ok sizes true k d) (k_rreps c)
+         && veqb (k_sum2 c) (vsum d)
+         && vlist_eqb (k_obs_edges2 c) (k_edges c)
+         && zlist_eqb (k_hist2 c) (spec_hist (k_edges c) d)
      end.
 
 (* ---------- model side ---------- *)
@@ -117,5 +133,11 @@ Definition model_ok (c : case) : bool :=
              (* the bin edges depend on bins / range / min / max of the values only: the run values have the dense min / max *)
              && vlist_eqb (k_obs_edges c) (k_edges c)
              && zlist_eqb (k_hist c) (model_hist (k_edges c) r)
+             (* the model has no state: a repeated observation is the same function of the same run-length array *)
+             && all2 (obs_matches sizes) ml (k_lreps c) && all2 (obs_matches sizes) ml (k_lreps2 c)
+             && forallb (obs_matches sizes (Some (k, r))) (k_rreps c)
+             && veqb (k_sum2 c) (model_sum r)
+             && vlist_eqb (k_obs_edges2 c) (k_edges c)
+             && zlist_eqb (k_hist2 c) (model_hist (k_edges c) r)
          end
      end.
